@@ -3,7 +3,7 @@
 use super::c01;
 use crate::engine::*;
 use crate::gen::chooser::{choices, Chooser};
-use crate::gen::logprog::{gen_log_program, Log, LogProgram};
+use crate::gen::logprog::{gen_log_program, Log, LogProgram, ANY_MESSAGE};
 use proptest::prelude::*;
 use serde::{Deserialize, Serialize};
 use serde_json::json;
@@ -95,10 +95,15 @@ fn stdio_failure(cx: &mut Ctx) -> Option<Failure> {
     None
 }
 
+/// equality of an observed and an expected Logger call; an expected message may be a wildcard
+fn same(a: &Log, b: &Log) -> bool {
+    a.kind == b.kind && a.file == b.file && a.line == b.line && (a.message == b.message || a.message == ANY_MESSAGE || b.message == ANY_MESSAGE)
+}
+
 fn is_subsequence(obs: &[Log], exp: &[Log]) -> bool {
     let mut i = 0;
     for e in exp {
-        if i < obs.len() && obs[i] == *e {
+        if i < obs.len() && same(&obs[i], e) {
             i += 1;
         }
     }
@@ -260,12 +265,12 @@ impl Prop for C19 {
                 }
                 // @warn: every distinct expected (file, line, message) at least once, nothing extra, program order
                 for w in prog.expected.iter().filter(|l| l.kind == "warn") {
-                    if !obs.contains(w) {
+                    if !obs.iter().any(|o| same(o, w)) {
                         return Verdict::Fail(Failure::new("logs:warn-missing", format!("@warn {:?} at {}:{} never reached the Logger", w.message, w.file, w.line), details(&obs)));
                     }
                 }
                 for w in obs.iter().filter(|l| l.kind == "warn") {
-                    if !prog.expected.contains(w) {
+                    if !prog.expected.iter().any(|e| same(e, w)) {
                         return Verdict::Fail(Failure::new("logs:warn-extra", format!("unexpected Logger::warn {:?} at {}:{}", w.message, w.file, w.line), details(&obs)));
                     }
                 }
